@@ -210,6 +210,12 @@ def verify(contract, repo: Repo, spec_override=None) -> VerifyResult:
         res.error = f"unsupported: {e}"
         res.seconds = time.time() - t0
         return res
+    except PyRaise as e:
+        # a Python exception that surfaced while the CONTRACT (not the function) evaluated a lazily built element - e.g. the cell of a
+        # comprehension read at an index the function never reads: the specification cannot be evaluated over this body
+        res.error = f"unsupported: {e.etype} ({e.msg}) raised while the contract evaluated a lazily built element of the function's result"
+        res.seconds = time.time() - t0
+        return res
     except Exception as e:   # checker crash
         res.error = "crash: " + "".join(traceback.format_exception_only(type(e), e)).strip() + "\n" + traceback.format_exc()
         res.seconds = time.time() - t0
